@@ -125,3 +125,12 @@ claim("C18", "model_checking",
       "controller (cabinet/frame/board contexts, most specific connection) are checked directly.",
       "Twin simulated machines; table of non-contextual arguments in the harness; nested internal calls resolve from the same context.",
       "DESIGN.md section 4, C18")
+claim("C20", "model_checking",
+      "Every sequence of <=3 boot calls from an alphabet of ten (no options, board presets, arbitrary and zero-valued overrides, options "
+      "through an explicit sv_overrides dict, through MachineController.boot, bundled and synthetic images) runs on the real boot code "
+      "with a capturing socket and frozen clock, each history from a freshly re-executed boot module. Every call's datagrams are decoded "
+      "(start/blocks/end, announced count, numbering, <=1 KiB whole-word blocks, byte swap) and must reassemble to the image with bytes "
+      "384..511 equal to a reference packing of the sv defaults with exactly this call's options; returned structs must agree; the "
+      "caller's dict must be unchanged; all image sizes at block boundaries.",
+      "Boot datagram format as documented in boot.py; reference packer reads rig/boot/sark.struct with an independent parser.",
+      "DESIGN.md section 4, C20")
